@@ -22,10 +22,17 @@ ASSUMPTIONS = ['what happens to a message in progress when an undefined status b
                'arrives is not fixed by the statement; only soundness is asserted here (completeness: C06)']
 
 RT = set(R.REALTIME_BY_STATUS)
+import enum  # noqa: E402
+_BYTE_ENUM = enum.IntEnum('ByteEnum', {f'B{i:02X}': i for i in range(256)})
 
 
 def _feed(data, entry, cont):
-    if cont == 'bytes':
+    if cont == 'intsub':
+        from lib.vals import _IntSub
+        arg = [_IntSub(b) for b in data]
+    elif cont == 'enum':
+        arg = [_BYTE_ENUM(b) for b in data]
+    elif cont == 'bytes':
         arg = bytes(data)
     elif cont == 'bytearray':
         arg = bytearray(data)
@@ -137,8 +144,9 @@ def check_stream(data, entry='parse_all', cont='list', polluted=False):
             for m in msgs:
                 m.time = 99
             again = _feed(data, entry, cont)
+            first_ids = {id(m) for m in msgs}
             if [(m.type, {**vars(m), 'time': 0}) for m in again] != [(t, {**v, 'time': 0}) for t, v in snap] or any(
-                    a is b for a in again for b in msgs) or any(m.time != 0 for m in again):
+                    id(a) in first_ids for a in again) or any(m.time != 0 for m in again):
                 out.append(fail('not-repeatable', f'{data[:16]}: second parse differs from / shares objects with the first',
                                 entry=entry))
         except Exception as exc:  # noqa: BLE001
@@ -176,7 +184,9 @@ def enum_shard(rec, shard):
     A = S.CLASS_ALPHABET
     parse_all = mido.parse_all
     for n in range(0, maxlen):
-        for tail in itertools.product(A, repeat=n):
+        for ti, tail in enumerate(itertools.product(A, repeat=n)):
+            if not rec.keep(ti, 11):
+                continue
             data = [first, *tail]
             try:
                 msgs = parse_all(data)
@@ -205,10 +215,22 @@ def main(ctx):
     strat = st.fixed_dictionaries({
         'data': S.byte_stream(max_chunks=40 if ctx.tier == 'quick' else 300),
         'entry': st.sampled_from(['parse_all', 'Parser', 'feed', 'feed_byte', 'get_message', 'chunks', 'chunks3']),
-        'cont': st.sampled_from(['list', 'tuple', 'bytes', 'bytearray', 'generator']),
+        'cont': st.sampled_from(['list', 'tuple', 'bytes', 'bytearray', 'generator', 'intsub', 'enum']),
         'polluted': st.booleans(),
     })
     ctx.hyp(strat, n, label='streams')
+    # volumes beyond 2**16 and 2**17: many messages in one call, one very long sysex, real-time bytes throughout
+    many = []
+    for i in range(45000):
+        many += [0xF8] if i % 3 == 0 else [0x90 | (i % 16), i % 128, 1 + i % 100]
+    ctx.check({'data': many * 2, 'entry': 'parse_all', 'cont': 'list'}, sample=False)
+    long_sysex = [0x90, 1, 2, 0xF0] + [(i * 7) % 128 if i % 5000 else 0xF8 for i in range(140000)] + [0xF7, 0xFA, 0x80, 3, 4]
+    for entry, cont in (('parse_all', 'bytes'), ('chunks3', 'bytes'), ('feed_byte', 'list')):
+        ctx.check({'data': long_sysex, 'entry': entry, 'cont': cont}, sample=False)
+    for data in ([0xF0, 1, 0xF8, 2, 0xF7], [0xF0, 0xFA, 0xF7, 0x90, 1, 2], [0x90, 1, 0xFB, 2, 3]):
+        for cont in ('intsub', 'enum'):
+            for entry in ('parse_all', 'feed_byte', 'chunks'):
+                ctx.check({'data': data, 'entry': entry, 'cont': cont}, sample=False)
     for data in ([], [0x90, 1, 2], [0xF8], [0xF0, 1, 0xF8, 2, 0xF7], [0x40, 0x41]):
         for entry in ('parse_all', 'feed_byte', 'chunks'):
             ctx.check({'data': data, 'entry': entry, 'cont': 'list', 'polluted': True}, sample=False)
